@@ -1,9 +1,48 @@
-import Fpdec.Lemmas.Dom
+import Fpdec.Lemmas.RatioL
 import Fpdec.Props.C09_Sites
 
-/-! # C09 — property theorems (under construction: see DESIGN.md section 6) -/
+/-!
+# C09 — Hash agrees with equality; as_integer_ratio is the reduced fraction
+
+* `gcd_special_spec`: the specialised Stein gcd returns `gcd(|numer|, 10^e)`; its loop terminates within the
+  fuel for every 128-bit operand; nothing inside panics, in any profile.
+* `as_integer_ratio_spec`: `as_integer_ratio`, `numerator`, `denominator` return `Spec.ratio`.
+* `ratio_reduced`: that pair has a positive denominator, is coprime and has the value of the Decimal — it is THE
+  reduced fraction.
+* `ratio_congr`, `hash_congr`: equal values in any two representations give the same pair, hence `Hash` feeds
+  the same two words to the hasher as the pair itself does: equal Decimals hash identically for every `Hasher`.
+-/
 
 namespace Fpdec.Props.C09
 open Fpdec Fpdec.Model
+
+theorem gcd_special_spec (prof : Profile) (numer : Int) (e : Nat) (hn : I128_MIN < numer ∧ numer ≤ I128_MAX)
+    (hn0 : numer ≠ 0) (he : e ≤ 18) : gcdSpecial prof numer e = .ok (Int.gcd numer ((10 : Int) ^ e) : Int) :=
+  gcdSpecial_spec prof numer e hn hn0 he
+
+theorem as_integer_ratio_spec (prof : Profile) (d : Dec) (hd : Dom d) :
+    asIntegerRatio prof d = .ok (Spec.ratio d.coeff d.nfrac) ∧
+    numerator prof d = .ok (Spec.ratio d.coeff d.nfrac).1 ∧ denominator prof d = .ok (Spec.ratio d.coeff d.nfrac).2 :=
+  asIntegerRatio_spec prof d hd
+
+theorem ratio_is_reduced (a : Int) (p : Nat) :
+    0 < (Spec.ratio a p).2 ∧ Int.gcd (Spec.ratio a p).1 (Spec.ratio a p).2 = 1 ∧
+    (Spec.ratio a p).1 * (10 : Int) ^ p = a * (Spec.ratio a p).2 :=
+  ratio_reduced a p
+
+theorem ratio_of_equal_values (a : Int) (p : Nat) (b : Int) (q : Nat) (h : Spec.cmp a p b q = .eq) :
+    Spec.ratio a p = Spec.ratio b q :=
+  ratio_congr a p b q h
+
+/-- equal values feed identical words to any hasher, namely those of the reduced pair -/
+theorem hash_of_equal_values (prof : Profile) (x y : Dec) (hx : Dom x) (hy : Dom y)
+    (h : Spec.cmp x.coeff x.nfrac y.coeff y.nfrac = .eq) :
+    hashFeed prof x = hashFeed prof y ∧
+    hashFeed prof x = .ok [(Spec.ratio x.coeff x.nfrac).1, (Spec.ratio x.coeff x.nfrac).2] :=
+  hash_congr prof x y hx hy h
+
+/-! ### non-vacuity -/
+example : asIntegerRatio Profile.dev ⟨-50, 2⟩ = .ok (-1, 2) ∧ asIntegerRatio Profile.dev ⟨-5, 1⟩ = .ok (-1, 2) := by decide
+example : Spec.cmp 34 1 3400 3 = .eq := by decide
 
 end Fpdec.Props.C09
